@@ -663,6 +663,31 @@ func gxLongSentences() []string {
 	return out
 }
 
+// gxShowItem: a member as the witness prints it; a long one by its beginning, its end and its length.
+func gxShowItem(item string) string {
+	fs := strings.Split(item, " ")
+	if len(fs) <= 48 {
+		return "‹" + item + "›"
+	}
+	return fmt.Sprintf("‹%s … %s› (%d tokens, continued in the same pattern)", strings.Join(fs[:24], " "), strings.Join(fs[len(fs)-8:], " "), len(fs))
+}
+
+// gxShowSeq: a sequence as the witness prints it; a long one by its beginning, its end and its length.
+func gxShowSeq(seq []string, sep string) string {
+	if len(seq) <= 40 {
+		return strings.Join(seq, sep)
+	}
+	return fmt.Sprintf("%s%s…%s%s (%d in all)", strings.Join(seq[:16], sep), sep, sep, strings.Join(seq[len(seq)-6:], sep), len(seq))
+}
+
+// gxClip: a witness of a long member, cut to a readable length.
+func gxClip(s string) string {
+	if r := []rune(s); len(r) > 1500 {
+		return string(r[:1500]) + " …"
+	}
+	return s
+}
+
 type gxVerdict struct {
 	treeBad, langBad, undec string
 	posBad                  string
@@ -724,7 +749,7 @@ func (c *Ctx) gxRun() []*gxFamVerdict {
 					acc, want := gxReference(ls)
 					got := h.parse(ls)
 					r := res{idx: i, sentence: acc}
-					show := "‹" + item + "›"
+					show := gxShowItem(item)
 					if got.kind == "accept" || got.kind == "reject" {
 						r.steps = got.steps
 					}
@@ -741,13 +766,13 @@ func (c *Ctx) gxRun() []*gxFamVerdict {
 								// the empty input is outside the statement ("every other non-empty token sequence")
 								break
 							}
-							r.langBad = fmt.Sprintf("%s is not a sentence of the grammar but is accepted and compiled to [%s]: tokens are skipped, substituted or ignored [last functions entered: %s]", show, strings.Join(got.rpn, " "), h.lastPath)
+							r.langBad = fmt.Sprintf("%s is not a sentence of the grammar but is accepted and compiled to [%s]: tokens are skipped, substituted or ignored [last functions entered: %s]", show, gxShowSeq(got.rpn, " "), h.lastPath)
 						} else if strings.Join(got.rpn, " ") != strings.Join(want, " ") {
-							r.treeBad = fmt.Sprintf("%s is compiled to [%s]; the post-order of its syntax tree under the precedence table is [%s] [last functions entered: %s]", show, strings.Join(got.rpn, " "), strings.Join(want, " "), h.lastPath)
+							r.treeBad = fmt.Sprintf("%s is compiled to [%s]; the post-order of its syntax tree under the precedence table is [%s] [last functions entered: %s]", show, gxShowSeq(got.rpn, " "), gxShowSeq(want, " "), h.lastPath)
 						}
 					case "reject":
 						if acc {
-							r.langBad = fmt.Sprintf("%s is a sentence of the grammar (post-order [%s]) but is rejected with %s [last functions entered: %s]", show, strings.Join(want, " "), got.code, h.lastPath)
+							r.langBad = fmt.Sprintf("%s is a sentence of the grammar (post-order [%s]) but is rejected with %s [last functions entered: %s]", show, gxShowSeq(want, " "), got.code, h.lastPath)
 						} else if got.code == "" {
 							r.langBad = fmt.Sprintf("%s is rejected with an error that carries no code", show)
 						}
@@ -761,6 +786,7 @@ func (c *Ctx) gxRun() []*gxFamVerdict {
 							}
 						}
 					}
+					r.treeBad, r.langBad = gxClip(r.treeBad), gxClip(r.langBad)
 					results[i] = r
 				}
 			}(w)
